@@ -412,6 +412,85 @@ def big_io(chk, n, want=None):
                                "library_there": iout[max(0, k - 20):k + 20].hex(), "case": l if len(l) < 4000 else l[:4000] + "…"})
 
 
+def py_cut_fields(rec, d, l, r, p=False, m=False, j=False, s=False):
+    """a plain python reading of `tuc -d D -f L:R [-p] [-m] [-j] [-s]` on one record (literal delimiter, one bound, no fallback): the bytes printed
+    for the record (EOL included), b"" when -s drops it, None when the run fails there"""
+    if rec == b"":
+        return b"" if s else b"\n"
+    if p:
+        while d + d in rec:
+            rec = rec.replace(d + d, d)
+    parts = rec.split(d)
+    n = len(parts)
+    if s and n == 1:
+        return b""
+    rr = resolve_py(l, r, n)
+    if rr is None:
+        return None
+    if not m:
+        return d.join(parts[rr[0] - 1:rr[1]]) + b"\n"
+    pieces = [parts[:rr[0] - 1], parts[rr[1]:]]
+    pieces = [d.join(x) for x in pieces if x]
+    if not pieces:
+        return None
+    return (d if j else b"").join(pieces) + b"\n"
+
+
+def history_cases(rng, tier):
+    """records whose field counts DIFFER inside one input (n and n + 2^k: a table, memo or cache keyed by a truncated count), in both orders, and a
+    record that makes every scratch buffer grow past 1 MiB followed by short ones (what a buffer keeps — or is shrunk to — after an oversized
+    record); general engine and fast lane, -p -m -j -s; expected output from py_cut_fields"""
+    cases, exp = [], []
+    d = b"-"
+    shapes = []
+    for k in (8, 9, 16):
+        for n1 in (1, 2, 3, 5):
+            shapes.append([n1, n1 + 2 ** k])
+            shapes.append([n1 + 2 ** k, n1])
+            shapes.append([n1, n1 + 2 ** k, n1])
+    shapes = shapes if tier != "quick" else shapes[:24]
+    for counts in shapes:
+        recs = [d.join(rng.choice([b"x", b"y", b"xy"]) for _ in range(n)) for n in counts]
+        for (l, r) in [(2, 2), (-1, -1), (2, None), (1, 1)]:
+            for m in (False, True):
+                for j in (False, True):
+                    o = {"m": m, "j": j}
+                    outs = [py_cut_fields(x, d, l, r, **o) for x in recs]
+                    e = b""
+                    for x in outs:
+                        if x is None:
+                            e = (e, None)
+                            break
+                        e += x
+                    c = {"kind": "cut", "eng": "auto", "d": d, "b": bound_text(l, r, None, l == r), "in": b"\n".join(recs) + b"\n"}
+                    if m:
+                        c["m"] = True
+                    if j:
+                        c["j"] = True
+                    cases.append(c)
+                    exp.append(e)
+    sizes = [2 ** 20 + 600] if tier == "quick" else [2 ** 20 - 8, 2 ** 20 + 600, 3 * 2 ** 19, 2 ** 21 + 8]
+    for size in sizes:
+        big = (b"k" + d) * (size // 2) + b"k"
+        bigp = (b"k" + d + d) * (size // 3) + b"k"
+        tails = [b"f", b"a-b--c", b"", b"--", b"q-r"]
+        for (l, r) in [(1, 1), (2, 2), (-1, -1), (1, None)]:
+            for o in ({"p": True}, {"p": True, "s": True}, {"p": True, "j": True}, {}, {"s": True}):
+                recs = [bigp if o.get("p") else big] + tails
+                outs = [py_cut_fields(x, d, l, r, **o) for x in recs]
+                e = b""
+                for x in outs:
+                    if x is None:
+                        e = (e, None)
+                        break
+                    e += x
+                c = {"kind": "cut", "eng": "auto", "d": d, "b": bound_text(l, r, None, l == r), "in": b"\n".join(recs) + b"\n"}
+                c.update({k_: True for k_ in o})
+                cases.append(c)
+                exp.append(e)
+    return cases, exp
+
+
 def count_thresholds(chk, modes):
     """requests that touch the LAST parts of records with n = 2^k-1, 2^k, 2^k+1 parts (k = 4 … 16, and 46341; 15 … 65537 fields, lines, characters or
     bytes — index × count products beyond 2^31 included), answered by a plain python selection: code keyed to a count or a size (a first block of 16 KiB, a Vec that starts at 1024
@@ -421,7 +500,10 @@ def count_thresholds(chk, modes):
     small_ns = [n for n in ns if n <= 4097] + rng.sample([n for n in ns if 4097 < n < 60000], 2) + [65537]
     cases, exp = [], []
     for mode in modes:
-        for n in (small_ns if (chk.tier == "quick" and mode == "M") else ns):
+        # … and past 2^20 (a "large enough" constant standing for "all of them", a capacity above which a buffer is shrunk): one count in the
+        # quick tier, four in the thorough one, three requests each
+        huge_ns = [2 ** 20 + 1] if chk.tier == "quick" else [2 ** 20 - 1, 2 ** 20, 2 ** 20 + 1, 2 ** 21 + 1]
+        for n in (small_ns if (chk.tier == "quick" and mode == "M") else ns) + (huge_ns if mode != "M" else []):
             parts = [rng.choice([b"x", b"y", b"xy"]) if mode != "b" else bytes([rng.choice([0, 10, 97, 255])]) for _ in range(n)]
             if mode in ("f", "M", "json"):
                 d, inp = b"-", b"-".join(parts) + b"\n"
@@ -434,7 +516,8 @@ def count_thresholds(chk, modes):
                 d, inp = b"", b"".join(parts) + b"\n"
             else:
                 d, inp = b"", b"".join(parts)
-            for l, r in [(n, n), (n - 1, n - 1), (1, n), (n, None), (-1, -1), (-n, -n), (2, n - 1), (n + 1, n + 1), (n - 2, n), (None, n)]:
+            for l, r in ([(n, n), (n - 1, n - 1), (1, n), (n, None), (-1, -1), (-n, -n), (2, n - 1), (n + 1, n + 1), (n - 2, n), (None, n)] if n < 100000
+                         else [(n, n), (-1, -1), (n - 1, None)]):
                 if mode == "M" and ((l is not None and l < 0) or (r is not None and r < 0)):
                     continue
                 c = {"kind": "cut", "eng": "auto", "d": d, "b": bound_text(l, r, None, l == r), "in": inp}
@@ -461,6 +544,10 @@ def count_thresholds(chk, modes):
                         e = (b"" if mode == "c" else d).join(sel) + b"\n"
                 cases.append(c)
                 exp.append(e)
+    if "f" in modes or "g" in modes or "json" in modes:
+        hc, he = history_cases(rng, chk.tier)
+        cases += hc
+        exp += he
     lines = [case_line(c) for c in cases]
     impl = run_impl(lines)
     for c, l, i, e in zip(cases, lines, impl, exp):
@@ -468,6 +555,14 @@ def count_thresholds(chk, modes):
         chk.count("count-thresholds")
         chk.nontrivial_add(("count", c.get("bt", "f"), len(c["in"]), c["b"], bool(c.get("M")), bool(c.get("json")), c["d"]))
         st, out = parse_result(i)
+        if isinstance(e, tuple):
+            # a history whose k-th record cannot be resolved: the run fails after the output of the earlier records
+            bad = st != "fail" or out != e[0]
+            e = None if bad else e
+            if bad:
+                chk.report_oracle("a run that must fail on a later record (after the output of the earlier ones) does something else",
+                                  {"case": l if len(l) < 70000 else l[:70000] + "…", "implementation": i[:300]})
+            continue
         bad = st not in ("ok", "fail") or (e is None and st != "fail") or (e is not None and (st != "ok" or out != e))
         if bad:
             short = dict(c)
@@ -555,3 +650,77 @@ def cli_roundtrip(chk, tuc_binary, n, want=None):
         if (("0" if mst == "ok" else "1") != st) or mout != out:
             chk.report_tie("K-cli: binary output / exit status differ from the model behind parse_args' wiring",
                            {"component": "K-cli", "argv": argv, "stdin_hex": inp.hex(), "case": l, "binary": [st, out.hex()], "model": m})
+
+
+def lying_size_stdin(chk, tuc_binary, n, want=None):
+    """stdin is a file whose metadata LIES about its content: procfs files report st_size = 0 and have content (`tuc … < /proc/version` is
+    ordinary use).  Whatever main or a reader derives from the metadata of stdin (a buffer capacity, a read size, a shortcut for 'empty'
+    files) must not change what is cut: the same command line is run with stdin = that file and with stdin = a pipe carrying the same bytes.
+    Content we control: /proc/<pid>/environ of a helper process started with one variable (`A=<content>\\0`, st_size 0); plus the kernel's own
+    stable files.  n random accepted command lines (cases.rand_cli; `want(argv)` filters), NUL-free inputs."""
+    import subprocess
+    from concurrent.futures import ThreadPoolExecutor
+    from common import ENV
+    if not os.path.exists("/proc/self/environ"):
+        chk.notes.append("lying-size stdin: no procfs here, scenario skipped")
+        return
+    rng = chk.rng
+    jobs = []           # (argv, path or None, content, helper)
+    helpers = []
+    stable = [p for p in ("/proc/version", "/proc/filesystems", "/proc/sys/kernel/ostype", "/proc/cmdline") if os.path.exists(p)]
+    try:
+        while len(jobs) < n:
+            argv, inp, c = rand_cli(rng)
+            argv = _fix_M(argv, c)
+            if not argv or c.get("z") or (want and not want(argv)):
+                continue
+            if rng.random() < 0.25 and stable:
+                path = rng.choice(stable)
+                content = open(path, "rb").read()
+                jobs.append((argv, path, content))
+                continue
+            body = inp.replace(b"\0", b"0")
+            if c.get("bt") in ("c", "l") or c.get("json"):
+                try:
+                    body.decode("utf-8")
+                except UnicodeDecodeError:
+                    continue
+            h = subprocess.Popen(["/bin/sleep", "120"], env={b"A": body}, stdin=subprocess.DEVNULL, stdout=subprocess.DEVNULL, stderr=subprocess.DEVNULL)
+            helpers.append(h)
+            jobs.append((argv, f"/proc/{h.pid}/environ", b"A=" + body + b"\0"))
+        import time
+        time.sleep(0.05)       # the helpers have exec'd
+
+        def run_one(job):
+            argv, path, content = job
+            av = [a if isinstance(a, (bytes, str)) else str(a) for a in argv]
+            try:
+                with open(path, "rb") as f:
+                    if f.read() != content:
+                        return None        # (the helper has not exec'd yet, or the kernel file changed: nothing to compare)
+                with open(path, "rb") as f:
+                    a = subprocess.run([tuc_binary] + av, stdin=f, stdout=subprocess.PIPE, stderr=subprocess.DEVNULL, env=ENV, timeout=20)
+                b = subprocess.run([tuc_binary] + av, input=content, stdout=subprocess.PIPE, stderr=subprocess.DEVNULL, env=ENV, timeout=20)
+            except (OSError, subprocess.TimeoutExpired) as e:
+                return ("error", repr(e))
+            return (a.returncode, a.stdout, b.returncode, b.stdout)
+        with ThreadPoolExecutor(16) as ex:
+            results = list(ex.map(run_one, jobs))
+    finally:
+        for h in helpers:
+            h.kill()
+        for h in helpers:
+            h.wait()
+    for (argv, path, content), r in zip(jobs, results):
+        if r is None:
+            chk.count("lying-size:skipped")
+            continue
+        chk.evaluations += 1
+        chk.count("lying-size-stdin")
+        chk.nontrivial_add(("lying-size", tuple(argv), content))
+        if r[0] == "error":
+            chk.report_oracle("stdin = a procfs file: the binary did not finish", {"argv": argv, "stdin_hex": content.hex(), "error": r[1]})
+        elif (r[0], r[1]) != (r[2], r[3]):
+            chk.report_oracle("the same bytes on stdin give a different result when stdin is a file that reports size 0 (procfs) than when it is a pipe",
+                              {"argv": argv, "stdin_hex": content.hex(), "stdin_as": "a file like " + ("/proc/<pid>/environ" if "environ" in path else path) + " (st_size = 0)",
+                               "file": [r[0], r[1].hex()], "pipe": [r[2], r[3].hex()]})
